@@ -150,7 +150,17 @@ def _strategy_lin(shapes):
         W = draw(gen.spd(Rw, D, kappa=20.0, lam_lo=0.5, lam_hi=2.0))[:, :K, :]
         sgn = draw(gen.arr((Rw, K, 1), -1, 1))
         W = W * np.where(sgn < 0, -1.0, 1.0)
-        case = {"D": D, "R": R, "N": N, "K": K, "combo": combo, "diag": diag, "W": W,
+        wstruct = draw(st.sampled_from([None] * 6 + ["selection", "orthonormal_rows"]))
+        if wstruct == "selection":
+            # rows of W pick K distinct coordinates (a marginal written as a linear map; a permutation when K = D)
+            cols = list(draw(st.permutations(list(range(D))))[:K])
+            W = np.zeros_like(W)
+            for i, c_ in enumerate(cols):
+                W[:, i, c_] = 1.0
+        elif wstruct == "orthonormal_rows":
+            W = np.linalg.qr(np.swapaxes(W, 1, 2))[0]
+            W = np.swapaxes(W, 1, 2)[:, :K, :]
+        case = {"D": D, "R": R, "N": N, "K": K, "combo": combo, "diag": diag, "W": W, "wstruct": wstruct,
                 "b": draw(st.one_of(st.none(), gen.arr((Rw, K)))),
                 "p": draw(gen.measure_params("diag_pdf" if diag else "pdf", Rp, D, draw(st.sampled_from([10.0, 100.0])))),
                 "upd": draw(gen.maybe_update("diag_pdf" if diag else "pdf", Rp, D)),
@@ -213,7 +223,7 @@ def _nontrivial_lin(case):
 
 
 def _labels_lin(case):
-    return [f"combo={case['combo']}", "b" if case["b"] is not None else "no_b", f"diag={case['diag']}", "K=D" if case["K"] == case["D"] else "K<D", "D>=17" if case["D"] >= 17 else "D<=8", f"far_mean={case.get('far', 0.0):g}"]
+    return [f"combo={case['combo']}", "b" if case["b"] is not None else "no_b", f"diag={case['diag']}", "K=D" if case["K"] == case["D"] else "K<D", f"W={case.get('wstruct') or 'generic'}", "D>=17" if case["D"] >= 17 else "D<=8", f"far_mean={case.get('far', 0.0):g}"]
 
 
 SUBS = [
